@@ -357,7 +357,7 @@ def run_history(c, ctx):
                 rejected = False
             except ValueError:
                 rejected = True
-            dd = digest.digest_diff(before, digest.digest(o, skip=_CACHE))
+            dd = digest.parameter_mutation(before, digest.digest(o, skip=_CACHE))
             if not rejected:
                 ctx.fail("bad_target_accepted." + kind, "%s %s accepted a target of shape %r (source %r)" % (cls, opts, bad.shape, src.shape))
                 live.remove(e)
